@@ -15,6 +15,7 @@ mod c14;
 mod c07;
 mod c15;
 mod c16;
+mod c17;
 mod c18;
 mod sinkwalk;
 mod walkprops;
@@ -38,6 +39,7 @@ pub fn run(opts: &Opts) -> i32 {
         "C07" => c07::run(opts),
         "C15" => c15::run(opts),
         "C16" => c16::run(opts),
+        "C17" => c17::run(opts),
         "C18" => c18::run(opts),
         "smoke" => smoke::run(opts),
         other => {
